@@ -34,7 +34,7 @@ def bounds(tier):
 
 def required_cells(tier):
     return ["excluded-file-defines-macro-others-test", "excluded-compiled-file", "excluded-header", "out-of-root-header",
-            "out-of-root-header-defines-macro", "pattern:path", "pattern:dir", "pattern:ext", "all-files-excluded",
+            "out-of-root-header-defines-macro", "pattern:path", "pattern:dir", "pattern:ext", "pattern:anchored-dir", "all-files-excluded",
             "cli:-x-vs-toml", "cli:tree", "cli:cov"]
 
 
@@ -76,6 +76,8 @@ def pattern_sets(rng, case, quick):
             out.append((["/" + x for x in sub], "pattern:path"))
     dirs = sorted({os.path.dirname(r) for r in rels})
     out.append(([rng.choice(dirs) + "/"], "pattern:dir"))
+    out.append((["/sub/"], "pattern:anchored-dir"))
+    out.append((["sub/"], "pattern:dir"))
     out.append((["*.h"], "pattern:ext"))
     out.append((["*.c", "!/src/t0.c"], "pattern:ext"))
     out.append((["*"], "pattern:ext"))
@@ -252,6 +254,11 @@ def run_shard(ctx):
                           findable=True, subdir=not small)
         for tu in case["tus"]:
             tu["search"] = [["I", d] for _, d in tu["search"]]
+        if not small:
+            # a top-level directory with the same name as a deeper one (src/sub), for anchored patterns
+            case["files"]["sub/extra.c"] = [["code"], ["code"]]
+            case["files"]["sub/keep.c"] = [["code"]]
+            case["files"]["src/sub/deep_extra.c"] = [["code"], ["chain", [["ifdef", "A", [["code"]]]]]]
         if small:
             # keep small cases small: at most 5 files in the root so that every subset is tried
             pass
